@@ -20,7 +20,8 @@ inductive Inst (mt : Meta) (σ : Subst) : V → V → Prop
   | ignoredPtr (t : String) (id : Nat) (fs : List V) (g : V) : ignoredPtr t = true → Inst mt σ (.ptr t id fs) g
   | nilP (t : String) (g : V) : g.isNil = true → Inst mt σ (.nilP t) g
   | nilI (i : String) (g : V) : g.isNil = true → Inst mt σ (.nilI i) g
-  | nilS (e : String) (g : V) : g.isNil = true → Inst mt σ (.nilS e) g
+  | nilS (e : String) (g : V) : dotsElem e = false → g.isNil = true → Inst mt σ (.nilS e) g
+  | nilSNil (e e' : String) : dotsElem e = true → Inst mt σ (.nilS e) (.nilS e')
   | nilSEmpty (e e' : String) : dotsElem e = true → Inst mt σ (.nilS e) (.slice e' [])
   | iface (i j : String) (p g : V) : Inst mt σ p g → Inst mt σ (.iface i p) (.iface j g)
   | sliceDots (e e' : String) (ps gs : List V) : dotsElem e = true → InstSeq mt σ e ps gs →
